@@ -37,7 +37,7 @@ def run(prog, rep):
     params = fn.param_names()
     for c in waits:
         arg = c["args"][1]
-        a = strip_casts(arg)
+        a = fn.resolve(arg)
         rec = mu.records.get("PMutex_")
         if rec is None:
             rep.ob("C03.2", fn, "layout", False, "struct PMutex_ not found in pmutex-posix.c", c)
